@@ -96,10 +96,22 @@ def codecOp (kind : String) (text : Bytes) : String :=
   | "blk" => render (blockFromText H text) (fun p => dBlock p.1 p.2) (fun p => blockToText H p.1 p.2) text
   | _ => "bad-op"
 
+/-- go-wire's own outcome is not modelled: a non-empty message never panics -/
+def msgOp (bz : Bytes) : String :=
+  match (decodeMessage (fun _ => (⟨0, .err .eof⟩ : Res Unit)) bz).out with
+  | .panic => "panic"
+  | _ => "nopanic"
+
 def codecStep (line : String) : String :=
   match (line.splitOn " ").filter (· ≠ "") with
   | [k, a] =>
-    if k == "txr" || k == "txdr" || k == "hdrr" || k == "blkr" then
+    if k == "msg" || k == "cmsg" then
+      match rawArg a with
+      | some bz => msgOp bz
+      | none => "bad-op"
+    else if k == "msgtx" then codecOp "tx" (if a == "-" then [] else textOf a)
+    else if k == "msgblk" || k == "msgmined" || k == "cmsgblk" then codecOp "blk" (if a == "-" then [] else textOf a)
+    else if k == "txr" || k == "txdr" || k == "hdrr" || k == "blkr" then
       match rawArg a with
       | some t => codecOp ((k.dropEnd 1).toString) t
       | none => "bad-op"
